@@ -216,7 +216,7 @@ def build(S, tier):
                                                       "h1": v["h1"], "h0": v["h0"]})
 
     # ------------------------------------------------------------------ grand canonical
-    def run_gc(I, delta):
+    def run_gc(I, delta, used=False):
         T, E, E0, mu, V, m = (I.path.fresh(n) for n in ("T", "E", "E0", "mu", "Vacc", "mass"))
         N = I.path.fresh("N", "int")
         I.path.assume(z3.And(T.t > 0, V.t > 0, m.t > 0, N.t >= 0))
@@ -227,6 +227,13 @@ def build(S, tier):
                         last_potential_energy=E0, chemical_potential=mu, number_of_exchange_particles=N,
                         accessible_volume=V, exchange_atoms=xatoms, particle_delta=delta)
         crit = I.call(I.get_class(CRIT + "GrandCanonicalCriteria"), [], {})
+        if used:
+            # the criteria object has already judged a trial under OTHER conditions (another temperature, energy, volume)
+            T9, E9, E09, mu9, V9 = (I.path.fresh(n) for n in ("T_before", "E_before", "E0_before", "mu_before", "V_before"))
+            I.path.assume(z3.And(T9.t > 0, V9.t > 0))
+            ctx9 = I.new_obj("quansino.mc.contexts.ExchangeContext", atoms=AtomsScalar(I.path.fresh("n9", "int"), epot=E9), rng=RngModel(), temperature=T9,
+                             last_potential_energy=E09, chemical_potential=mu9, number_of_exchange_particles=N, accessible_volume=V9, exchange_atoms=xatoms, particle_delta=delta)
+            I.call(I.getattr(crit, "evaluate"), [ctx9], {})
         before, cbefore = dict(crit.attrs), dict(ctx.attrs)
         r = I.call(I.getattr(crit, "evaluate"), [ctx], {})
         return dict(r=r, T=T, E=E, E0=E0, mu=mu, V=V, m=m, N=N, rng=rng, atoms=atoms, crit=crit, before=before, ctx=ctx, cbefore=cbefore)
@@ -234,9 +241,9 @@ def build(S, tier):
     fq = CRIT + "GrandCanonicalCriteria.evaluate"
     hpl, Nav, ee = UNITS["_hplanck"].t, UNITS["_Nav"].t, UNITS["_e"].t
     lam = z3.Real("Lambda")      # thermal de Broglie wavelength in Angstrom (spec function from physics)
-    for delta, tag in ((1, "insertion"), (-1, "deletion")):
-        paths = S.explore(lambda I, d=delta: run_gc(I, d), f"{fq}[{tag}]")
-        if delta == 1:
+    for delta, tag, used in ((1, "insertion", False), (-1, "deletion", False), (1, "insertion, used criteria object", True), (-1, "deletion, used criteria object", True)):
+        paths = S.explore(lambda I, d=delta, u_=used: run_gc(I, d, u_), f"{fq}[{tag}]")
+        if delta == 1 and not used:
             S.register_function(S.new_interp(), fq, len(paths))
         for i, p in enumerate(paths):
             S.adopt(p, prefix=f"[{tag}]")
@@ -257,7 +264,8 @@ def build(S, tier):
             else:
                 spec = spec_accept_pref(u, lam * lam * lam * Nr / v["V"].t, (-v["mu"].t - dE) / (kB * T))
             ob = S.prove(f"{fq}#ensures.metropolis_{tag}@{i}", to_z3(v["r"], "bool") == spec, hyps=p.pc + [lam_def])
-            replay_info(S, ob, f"gc_{tag}", {k: v[k] for k in ("T", "E", "E0", "mu", "V", "m", "N")} | {"u": Sym(u)})
+            if not used:
+                replay_info(S, ob, f"gc_{tag}", {k: v[k] for k in ("T", "E", "E0", "mu", "V", "m", "N")} | {"u": Sym(u)})
             common_checks(S, f"{fq}[{tag}]", p, v["rng"], v["atoms"])
             frame_checks(S, f"{fq}[{tag}]", i, v, allowed=())
 
